@@ -144,3 +144,67 @@ func vrtHarness_C09_lazy() {
 	vrtWaitQuiescent()
 	vrtAssert("all callers complete successfully", vrtAnd(finished == k, failed == 0))
 }
+
+// Capacity while dialing is not lost through cancellations: L callers queue on a
+// dialing connection and give up (context cancelled) before the dial finishes; L new
+// callers must then be admitted to the SAME dialing connection (no extra dial) and be
+// served once the dial succeeds.
+func vrtHarness_C09_lazyCancel() {
+	L := 1 + vrtChoice(vrtParam("max_limit", 2))
+	released := false
+	var conn *vrtConn
+	dials := 0
+	t := NewPipelineTransport(PipelineOpts{
+		MaxConcurrentQueryWhileDialing: L,
+		DialContext: func(ctx context.Context) (DnsConn, error) {
+			vrtAtomic(func() { dials++ })
+			vrtAwait(func() bool { return released }, func() { conn = &vrtConn{stream: true} })
+			return NewDnsConn(TraditionalDnsConnOpts{WithLengthHeader: true, MaxConcurrentQuery: L}, conn), nil
+		},
+	})
+	ctxX, cancelX := context.WithCancel(context.Background())
+	gaveUp := 0
+	for i := 0; i < L; i++ {
+		i := i
+		go func() {
+			_, err := t.ExchangeContext(ctxX, vrtWire(uint16(i), uint16(200+i)))
+			vrtAtomic(func() {
+				if err != nil {
+					gaveUp++
+				}
+			})
+		}()
+	}
+	vrtWaitQuiescent() // L callers are queued on the dialing connection
+	cancelX()
+	vrtWaitQuiescent()
+	vrtAssert("cancelled callers return with an error", gaveUp == L)
+	ctx, cancel := context.WithTimeout(context.Background(), 2*time.Second)
+	defer cancel()
+	finished, failed := 0, 0
+	for i := 0; i < L; i++ {
+		i := i
+		go func() {
+			r, err := t.ExchangeContext(ctx, vrtWire(uint16(i), uint16(100+i)))
+			vrtAtomic(func() {
+				finished++
+				if vrtOr(err != nil, r == nil) {
+					failed++
+				}
+			})
+		}()
+	}
+	vrtWaitQuiescent()
+	vrtCover("new callers queued after cancellations", true)
+	vrtAssert("cancelled queries give their dialing-queue slots back: no extra connection is dialled", dials == 1)
+	vrtAtomic(func() { released = true })
+	vrtWaitQuiescent()
+	vrtAssert("every new query is sent once the dial succeeds", vrtAnd(conn != nil, len(conn.frames) == L))
+	vrtAtomic(func() {
+		for _, f := range conn.frames {
+			conn.serverSend(f)
+		}
+	})
+	vrtWaitQuiescent()
+	vrtAssert("all new callers complete successfully", vrtAnd(finished == L, failed == 0))
+}
